@@ -1,2 +1,3 @@
 pub mod msg;
 pub mod refparse;
+pub mod text;
